@@ -268,10 +268,18 @@ C02_MON = {"timed", "avail"}
 def run(prop, argv, meta_focus):
     chk = Check(prop, argv)
     thorough = chk.tier == "thorough"
-    chk.translate(["bounded_queue"])
+    chk.translate(["bounded_queue", "bounded_queue_orders"])
     chk.log("translated")
     chk.coq("Properties_%s.v" % prop)
     chk.log("coq done")
+    if prop == "C01":
+        # release/acquire half ("the consumer sees every write the producer made"): every publish path x every
+        # observe path of the queue on the view machine of coq/WM/RA.v, orders regenerated from the source; when an
+        # order or a fence was weakened the search prints the execution in which the payload is read too early
+        chk.wm_litmus("publication", "Require Import Verif.BQ.BQLitmusDefs.", "all_pairs_safe", "bad_pair_prog", "mp_bad",
+                      "a slot's version publish / observe pair no longer synchronises (release store or exchange, release "
+                      "fence + relaxed stores vs. acquire load, relaxed loads + acquire fence): the consumer callback can "
+                      "read the element before the producer's writes are visible", machine="RA")
     if prop == "C02":
         # store-buffer half: the waker/waiter skeleton with the fences regenerated from the source, on the TSO machine of coq/WM
         defs = ("Require Import Verif.Gen.Gen_bounded_queue.\n"
